@@ -268,6 +268,9 @@ class Interp:
         self.exempt_usize_adds = 0
         self._unsat_cache = {}
         self._const_cache = {}
+        self._imp_cache = {}
+        self.ghost_vars = None          # callable(fn, head) -> [(ghost var, entry value)]  (rule-maintained loop ghosts)
+        self.ghost_cur = None           # callable(state, fn, head) -> {ghost var: value at the back edge}
         self.hyps = None                # callable(state, goal) -> extra hypotheses (axiom instances) for entailment
         self.head_states = []
         self.back_states = []           # (fn path, head, state, mapping) at back edges of the stable iteration
@@ -290,8 +293,38 @@ class Interp:
             return True
         extra = (T.mk_not(goal),)
         if self.hyps is not None:
-            extra = tuple(self.hyps(st, goal)) + extra
+            extra = tuple(self.resolve_hyps(st, self.hyps(st, goal))) + extra
         return self.unsat(st.pc, extra)
+
+    def resolve_hyps(self, st, hyps):
+        """hypotheses may be formulas or ('imp', A, B) pairs; an implication whose antecedent is decided by the
+        state's constraints is replaced by its consequent (or dropped) so that it costs no case split"""
+        out = []
+        pckey = frozenset(st.pc)
+        for h in hyps:
+            if isinstance(h, tuple) and h and h[0] == 'imp':
+                _, a, b = h
+                if T.is_bool(a):
+                    if a[1]:
+                        out.append(b)
+                    continue
+                k = (pckey, a)
+                r = self._imp_cache.get(k)
+                if r is None:
+                    if a in st.pcset or self.unsat(st.pc, (T.mk_not(a),)):
+                        r = 'yes'
+                    elif self.unsat(st.pc, (a,)):
+                        r = 'no'
+                    else:
+                        r = 'open'
+                    self._imp_cache[k] = r
+                if r == 'yes':
+                    out.append(b)
+                elif r == 'open':
+                    out.append(T.mk_implies(a, b))
+            else:
+                out.append(h)
+        return out
 
     def feasible(self, st, cond):
         if T.is_bool(cond):
@@ -1068,6 +1101,9 @@ class Interp:
             s0 = entry.clone()
             f0 = s0.frames[-1]
             mapping = self.havoc(s0, f0, hav, head, inst)
+            ghosts = list(self.ghost_vars(fn, head)) if self.ghost_vars else []
+            mapping = mapping + ghosts
+            s0.ghost[('iter-start', depth, head)] = len(s0.calls)
             havocked_locals = set(self._havocked)
             havocked_derefs = set(self._havocked_derefs)
             cands = self.candidates(entry, s0, f0, mapping, head)
@@ -1233,10 +1269,21 @@ class Interp:
             v = fr.cells[l].v
             if isinstance(v, Ref) and l in self._havocked_deref_set:
                 cv(self.load(st, v.cell, v.path))
-        if len(vals) != len(mapping):
+        nghost = 0
+        gcur = {}
+        if self.ghost_vars:
+            gl = list(self.ghost_vars(fr.fn, fr.active[-1] if fr.active else -1))
+            nghost = len(gl)
+            gcur = self.ghost_cur(st, fr.fn, fr.active[-1] if fr.active else -1) if self.ghost_cur else {}
+        real = mapping[:len(mapping) - nghost] if nghost else mapping
+        if len(vals) != len(real):
             # shape changed: no information
-            return {hv: st.fresh_var('unknown') for hv, _ in mapping}
-        return {hv: val for (hv, _), val in zip(mapping, vals)}
+            r = {hv: st.fresh_var('unknown') for hv, _ in real}
+        else:
+            r = {hv: val for (hv, _), val in zip(real, vals)}
+        for gv, _ in (mapping[len(mapping) - nghost:] if nghost else []):
+            r[gv] = gcur.get(gv, st.fresh_var('unknown'))
+        return r
 
     def candidates(self, entry, s0, f0, mapping, head):
         """difference-constraint candidates between havocked integer variables, their entry values and
